@@ -569,6 +569,9 @@ pub fn c05_roles(cx: &mut Ctx) {
                     .collect()
             };
             let accepted = all_texts.iter().all(|t| Parser::parse_sql(&PostgreSqlDialect {}, t).is_ok());
+            if crate::world::fired_at("reloaded").map(|(q, _)| s.start_seq > q).unwrap_or(false) {
+                cx.probe("c05_statement_after_reload");
+            }
             // effective behaviour
             // the parser only decides roles when read/write splitting is configured
             let automatic = cx.param_bool("rw_split")
